@@ -556,17 +556,24 @@ def _get_max_parab(fun, start, end, tol=0.01):
                                 - (b - c) ** 2 * (f_b - f_a)) /
                                ((b - a) * (f_b - f_c) - (b - c) * (f_b - f_a)))
             except FloatingPointError:
-                return b
+                return _get_min_bounded(fun, start, end, tol)
             if abs(b - x) <= tol:
                 return x
             f_x = fun(x)
             # sometimes the estimation diverges... return best guess
             if f_x > f_b:
-                logger.info("Parabolic interpolation did not converge, returning best guess so far.")
-                return b
+                logger.info("Parabolic interpolation did not converge, falling back to bounded minimisation.")
+                return _get_min_bounded(fun, start, end, tol)
 
             a, b, c = (a + x) / 2.0, x, (x + c) / 2.0
             f_a, f_b, f_c = fun(a), f_x, fun(c)
+
+
+def _get_min_bounded(fun, start, end, tol=0.01):
+    """Minimum of *fun* within [start, end] by Brent's bounded method (cannot leave the bracket nor stall)."""
+    res = optimize.minimize_scalar(fun, bounds=(float(start), float(end)), method="bounded",
+                                   options={"xatol": tol})
+    return res.x
 
 
 class OrbitElements(object):
